@@ -4,7 +4,9 @@
 (* envelope invariants hold for the rational function of MemAdaptiveOps on *)
 (* every valid rule / memory reading of a bounded grid (constants Rules,   *)
 (* Mems); the machine walks through memory readings so that monotonicity   *)
-(* is checked between consecutive probes as well.                          *)
+(* is checked between consecutive probes as well.  The control behaviour  *)
+(* is a field of the rule: ObservableOK states the envelope for the        *)
+(* admission count of either checker (MemAdaptiveOps!Admits).              *)
 (***************************************************************************)
 EXTENDS MemAdaptiveOps
 
